@@ -187,6 +187,26 @@ EncodeWithReplacement(enc, st, src, cap, last) ==
       ELSE NcrLoop(enc, st, src, cap, IF canAll THEN cap ELSE cap - NcrExtra, last,
                    [pos |-> 0, ru |-> 0, w |-> 0, out |-> <<>>], FALSE, 0)
 
+(***************************************************************************)
+(* max_buffer_length_from_utf{8,16}_{without_replacement,if_no_unmappables} *)
+(* (lib.rs Encoder::max_buffer_length_*; per-variant formulas of            *)
+(* single_byte.rs, utf_8.rs, x_user_defined.rs, big5.rs, euc_kr.rs,         *)
+(* euc_jp.rs, shift_jis.rs, gb18030.rs (extended = gb18030, otherwise GBK), *)
+(* iso_2022_jp.rs).  n = number of source code units.  None of the          *)
+(* formulas depends on the encoder's state.  usize overflow is outside the  *)
+(* model (decided on real calls by the QO events of MiscMonitor).           *)
+(***************************************************************************)
+EncVariantMax(enc, n) ==
+  CASE enc = "UTF-8"        -> IF EncSource = "utf16" THEN 3 * n ELSE n
+    [] enc \in {"Big5", "EUC-KR", "EUC-JP", "Shift_JIS"} -> IF EncSource = "utf16" THEN 2 * n ELSE n + 1
+    [] enc = "gb18030"      -> IF EncSource = "utf16" THEN 4 * n ELSE 2 * n + 2
+    [] enc = "GBK"          -> IF EncSource = "utf16" THEN 2 * n + 2 ELSE n + 3
+    [] enc = "ISO-2022-JP"  -> IF EncSource = "utf16" THEN 3 + 4 * n + ((n + 1) \div 2) ELSE 3 + 3 * n
+    [] OTHER                -> n          \* single-byte family and x-user-defined
+
+EncoderMax(enc, n, repl) ==
+  EncVariantMax(enc, n) + (IF repl /\ enc # "UTF-8" THEN NcrExtra ELSE 0)
+
 Encode(enc, st, src, cap, last, repl) ==
   IF repl THEN EncodeWithReplacement(enc, st, src, cap, last)
   ELSE RawEncode(enc, st, src, cap, last) @@ [had |-> FALSE]
